@@ -843,6 +843,13 @@ func genSeq(r *run.Runner, g *Gen) {
 		p := append([]string{}, ss...)
 		g.R.Shuffle(len(p), func(i, j int) { p[i], p[j] = p[j], p[i] })
 		calls = append(calls, call("ChangeExtendedSpatialIdsZoom", w.Strs(p), w.I(H), w.I(V)))
+		if len(ss) > 0 && g.Chance(0.6) {
+			// a call that fails after it has worked through the valid IDs (malformed last element), then the identical valid call:
+			// whatever the failed call left behind (pooled buffers, a "last expanded" memo) must not reach the next result
+			bad := append(append([]string{}, ss...), ss[len(ss)-1]+"x")
+			calls = append(calls, call("ChangeExtendedSpatialIdsZoom", w.Strs(bad), w.I(H), w.I(V)), call("ChangeExtendedSpatialIdsZoom", w.Strs(ss), w.I(H), w.I(V)))
+			kind = "ext-repeat-permute-failing-tail"
+		}
 	case 2: // same tile, other f / same f, other tile (extended form, single IDs)
 		kind = "ext-same-tile-other-f"
 		H, V := g.Zoom(), g.Zoom()
